@@ -132,6 +132,11 @@ def audit(module):
     """#print axioms on every theorem declared in `module` (via Cpppo.Audit.Tool)."""
     short = module.split(".")[-1]
     path = os.path.join("Cpppo", "Audit", short + ".lean")
+    text = f"import Cpppo.Audit.Tool\nimport {module}\n#audit_module {module}\n"
+    full = os.path.join(LEAN, path)
+    if not os.path.exists(full) or open(full).read() != text:
+        with open(full, "w") as f:
+            f.write(text)
     rc, out = run(["lake", "env", "lean", path], cwd=LEAN, timeout=1800)
     thms = {}
     for m in re.finditer(r"AUDIT (\S+) \[(.*?)\]", out):
